@@ -139,7 +139,7 @@ fn run_worker_inner(case: &C11Case, path: &Path, rep: &mut WorkerReport) -> Resu
         next = *t2 + 1;
     }
     // further transactions on the same handle, every commit verified, then reopen
-    let rest = HistoryCase { cfg: cfg.clone(), fresh_handles: false, txs: case.history.txs[next..].to_vec() };
+    let rest = HistoryCase { cfg: cfg.clone(), fresh_handles: false, txs: case.history.txs[next..].to_vec(), dance: 0 };
     let mut opts = RunOpts::standard(path.to_path_buf());
     opts.start_model = Some(observed);
     opts.keep_file = true;
